@@ -87,10 +87,33 @@ func runC15(c C15Case) (st Stats, err error) {
 			dst.Push("junk1")
 			dst.Remove(0)
 		}
+		// popped / poppedfifo: up to three extra values are pushed and popped again (at the newest end, or - in FIFO
+		// mode - at the oldest end): the slots they occupied lie beyond the destination's content and may not show again
+		extra := 3
+		if c.CapExtra >= 0 && extra > c.CapExtra {
+			extra = c.CapExtra
+		}
+		if c.DstPrep == "poppedfifo" {
+			for i := 0; i < extra; i++ {
+				dst.Push("stale-front" + itoa(i))
+			}
+		}
 		for i := 0; i < c.DstLen; i++ {
 			dst.Push(tagValue(i + 1))
 		}
 		switch c.DstPrep {
+		case "popped":
+			for i := 0; i < extra; i++ {
+				dst.Push("stale" + itoa(i))
+			}
+			for i := 0; i < extra; i++ {
+				dst.Pop()
+			}
+		case "poppedfifo":
+			dst.SetFIFO(true)
+			for i := 0; i < extra; i++ {
+				dst.Pop()
+			}
 		case "insertfront":
 			if c.DstLen > 0 {
 				dst.Remove(0)
@@ -427,7 +450,7 @@ func enumC15(tier Tier, yield func(C15Case)) {
 							yield(c)
 						}
 						// destinations with a history (native form)
-						for _, prep := range []string{"reset", "remove", "insertfront", "popfifo"} {
+						for _, prep := range []string{"reset", "remove", "insertfront", "popfifo", "popped", "poppedfifo"} {
 							c := base
 							c.Form = "native"
 							c.DstPrep = prep
@@ -506,7 +529,7 @@ func genC15(t *rapid.T, tier Tier) C15Case {
 		}
 	}
 	c.Reject = rapid.IntRange(0, max(maxLen, c.SrcLen)+1).Draw(t, "reject")
-	c.DstPrep = rapid.SampledFrom([]string{"", "", "reset", "remove", "insertfront", "popfifo"}).Draw(t, "dstprep")
+	c.DstPrep = rapid.SampledFrom([]string{"", "", "reset", "remove", "insertfront", "popfifo", "popped", "popped", "poppedfifo"}).Draw(t, "dstprep")
 	c.SrcMutex = rapid.Bool().Draw(t, "srcmutex")
 	if rapid.Bool().Draw(t, "idxopts?") {
 		c.SrcIdx = rapid.IntRange(1, 15).Draw(t, "idxopts")
